@@ -1,6 +1,8 @@
 package vsym
 
 import (
+	"crypto/x509/pkix"
+	"time"
 	"crypto"
 	"crypto/rand"
 	"crypto/rsa"
@@ -51,16 +53,28 @@ func (s *SymSigner) Sign(r io.Reader, digest []byte, opts crypto.SignerOpts) ([]
 	return rsa.SignPKCS1v15(r, s.key, opts.HashFunc(), digest)
 }
 
-// Cert returns a certificate record for the key of signer with the given raw bytes, issuer and
-// serial magnitude (big-endian, no leading zero).  Only the fields the library uses are set.
-func Cert(signer crypto.Signer, raw, rawIssuer, serial []byte) *x509.Certificate {
+// Cert returns a certificate for the key of signer with the given serial magnitude (big-endian,
+// no leading zero).  Natively it is a real self-signed certificate (so it parses); under the
+// executor Raw is an opaque symbolic byte string of CertRawLen bytes and RawIssuer a 3-byte DER
+// SEQUENCE with one symbolic byte.  Harnesses read cert.Raw / cert.RawIssuer / cert.SerialNumber.
+func Cert(signer crypto.Signer, serial []byte) *x509.Certificate {
 	s := signer.(*SymSigner)
-	return &x509.Certificate{
-		Raw:                append([]byte{}, raw...),
-		RawIssuer:          append([]byte{}, rawIssuer...),
-		SerialNumber:       new(big.Int).SetBytes(serial),
-		PublicKey:          &s.key.PublicKey,
-		PublicKeyAlgorithm: x509.RSA,
-		SignatureAlgorithm: x509.SHA256WithRSA,
+	tmpl := &x509.Certificate{
+		SerialNumber: new(big.Int).SetBytes(serial),
+		Subject:      pkix.Name{CommonName: "vsym " + s.Name},
+		NotBefore:    time.Unix(1600000000, 0),
+		NotAfter:     time.Unix(2500000000, 0),
 	}
+	der, err := x509.CreateCertificate(rand.Reader, tmpl, tmpl, &s.key.PublicKey, s.key)
+	if err != nil {
+		panic(err)
+	}
+	c, err := x509.ParseCertificate(der)
+	if err != nil {
+		panic(err)
+	}
+	return c
 }
+
+// CertRawLen sets the length of the opaque certificate bytes under the executor (default 5).
+func CertRawLen(n int) {}
